@@ -51,7 +51,8 @@ Section C09.
   Theorem C09_filter_exact : forall r, wf r -> filter_response az r = spec_response az r.
   Proof. exact (switch_exact az). Qed.
 
-  (* every returned element (at every nesting level) is readable under the authorizer *)
+  (* every returned element (at every nesting level) is readable under the authorizer
+     (by identifier: a corollary of [C09_complete], which is the statement that carries the clause) *)
   Theorem C09_sound : forall r, wf r -> forall i, In i (ids (filter_response az r)) ->
     exists it, In it (items az r) /\ it_id it = i /\ it_readable it = true.
   Proof. exact (switch_sound az). Qed.
@@ -232,7 +233,9 @@ Theorem C09_expired : forall env down fuel i cache last t c1,
 Proof. exact expired_not_found. Qed.
 
 (* If every copy of the token that any source offers is expired, the result is independent of
-   the token: not found, an error, or the down-policy authorizer (never the token's own). *)
+   the token: not found, an error, or the down-policy authorizer (never the token's own).
+   NOTE [ODown]: with down policy "allow" and the primary datacenter unreachable, the expired
+   token gets allow-all — as ANY secret would (the outcome does not depend on the token). *)
 Theorem C09_all_expired : forall env down fuel cache last,
   (forall t, offered (a_bk (env 0)) cache (a_rpc (env 0)) t -> is_expired t (a_now (env 0)) = true) ->
   match fst (resolve_loop env down (S fuel) 0 cache last) with
